@@ -62,6 +62,7 @@ def valJson : MontePyVerif.Spec.Shortcut.Val → Json
   | .num x => ratJson x
   | .jump => Json.str "J"
   | .logv a b n k => Json.mkObj [("log", Json.arr #[ratJson a, ratJson b, toJson n, toJson k])]
+  | .linv a b n k => Json.mkObj [("lin", Json.arr #[ratJson a, ratJson b, toJson n, toJson k])]
 
 def wordJson : Word → Json
   | .num l => Json.mkObj [("num", toJson l.id)]
